@@ -73,7 +73,16 @@ func Split(rng *rand.Rand, m *Mod, k int) []*Mod {
 	r := &Resolver{}
 	part := map[interface{}]int{}
 	needs := map[int]map[int]bool{} // part -> parts whose definitions it references
+	// Half of the splits are free partitions: a submodule sees the module it belongs to and
+	// all of that module's submodules (RFC 7950 5.1), so any definition may go anywhere and
+	// no include between submodules is needed. The other half keeps every reference inside
+	// the submodule or its own includes (all that YANG 1.0 allows).
+	free := rng.Intn(2) == 0
 	assign := func(def interface{}, refs map[interface{}]bool) {
+		if free {
+			part[def] = rng.Intn(k + 1)
+			return
+		}
 		lo := 0
 		zero := false
 		for d := range refs {
